@@ -158,6 +158,18 @@ pub fn dispatch(op: &str, a: &[&str]) -> Option<Ans> {
             let mut s = vec![0u8; len];
             let sr = unsafe { so::crypto_kdf_derive_from_key(s.as_mut_ptr(), len, id, ctx.as_ptr() as *const _, key.as_ptr()) };
             let mut ia = if r.is_ok() { ok(&sub) } else { "err".into() };
+            // the same derivation into a sub-slice at every byte offset 1..=7 of a larger buffer (packed records, key tables): the
+            // destination's alignment must not matter, and nothing around it may be touched
+            for off in 1..8usize {
+                let mut big = vec![0xA5u8; len + 16];
+                let base_mis = (big.as_ptr() as usize) % 8;
+                let o = off + (8 - base_mis) % 8;   // address of big[o] ≡ off (mod 8)
+                let r2 = crypto_kdf_derive_from_key(&mut big[o..o + len], id, &ctx, &key);
+                if r2.is_ok() != r.is_ok() || (r.is_ok() && big[o..o + len] != sub[..]) || big[..o].iter().any(|x| *x != 0xA5) || big[o + len..].iter().any(|x| *x != 0xA5) {
+                    ia = format!("mismatch derivation into a destination at address ≡ {} (mod 8): {}", off, hex(&big[o..o + len]));
+                    break;
+                }
+            }
             if len == 32 {
                 let k = dryoc::kdf::StackKdf::from_parts(key.into(), ctx.into());
                 match k.derive_subkey_to_vec(id) {
@@ -423,8 +435,11 @@ pub fn dispatch(op: &str, a: &[&str]) -> Option<Ans> {
         "sign_open" => {
             let pk: [u8; 32] = arr(&b[0]);
             let sm = &b[1];
-            let mut out = vec![0u8; sm.len().saturating_sub(64)];
+            let mut out = vec![0xA5u8; sm.len().saturating_sub(64)];
             let r = crypto_sign_open(&mut out, sm, &pk);
+            if r.is_err() && out.iter().any(|x| *x != 0xA5) && out.iter().any(|x| *x != 0) {
+                return Some(("mismatch open wrote message bytes on failure".into(), "err".into()));
+            }
             let r3 = dryoc::sign::VecSignedMessage::from_bytes(sm).and_then(|s| s.verify(&pk));
             // the same bytes through the all-Vec container form (Vec<u8> signature): parse, re-serialise, verify
             let r4 = dryoc::sign::SignedMessage::<Vec<u8>, Vec<u8>>::from_bytes(sm);
